@@ -16,7 +16,7 @@ STUBS = ["pysam.VariantRecord -> duck-typed record (ref, alts, info, chrom/start
 ASSUMES = ["sequence handling is numpy unicode / str.format code (C boundary): the bases of REF and ALT, the number of ALT alleles and the assemble-side SNV set are integer variables that the solver enumerates exhaustively inside the bound (realised mode)",
            "ALT haplotypes are pairwise distinct and differ from REF (as in any VCF record)"]
 BOUNDS = {"quick": "wide loci of 70 and 130 SNVs (thorough 40..260), 3 haplotypes with solver-chosen alleles at the first / middle / last SNVs; pipeline: the assemble records of the C13 scenarios (6; thorough all) x 3 thresholds x dominant genotypes, re-read by call (trace chosen by the solver) and call-exact (real exact code), with and without AFP as prior; haplotypes of length 3 over {A,C,G}, REF + up to 2 ALT, every base combination; assemble side: every subset of positions as SNVPOS with up to 3 alleles per SNV and every called-haplotype set of size <= 3",
-          "thorough": "length 4, up to 3 ALT"}
+          "thorough": "length 4, up to 2 ALT; wide loci of 40..260 SNVs; every scenario in the record-level pipeline"}
 OUTSIDE = "piping real assemble stdout through call with real BAM files and pysam's VCF parser (the pipeline group hands call / call-exact a duck-typed record built from the text line assemble formatted)"
 TASKS_PER_CHILD = 4
 LEVEL_TEXT = ("Solver-driven exhaustive enumeration of a bounded record space (string code realises symbolic values) against an independent oracle; weaker than the symbolic checks, stated in evidence.")
@@ -27,7 +27,7 @@ def configs(tier):
     out = []
     L = 3 if tier == "quick" else 4
     for ref in itertools.product("AC", repeat=L):
-        for n_alt in ((0, 1, 2) if tier == "quick" else (1, 2, 3)):
+        for n_alt in ((0, 1, 2) if tier == "quick" else (1, 2)):  # (3 ALTs over 4 sites = 4096 records per reference, x 16 references: sized out)
             out.append(dict(group="record", L=L, ref="".join(ref), n_alt=n_alt))
     for ref in (["AAA", "ACA", "CAC"] if tier == "quick" else ["".join(r) for r in itertools.product("AC", repeat=3)]):
         out.append(dict(group="assemble", L=3, ref=ref))
